@@ -41,7 +41,7 @@ def run(ctx):
     workers = 4 if q else 8
     # 1. model check of the specification
     cfg = "MC_ProjDataStore" if q else "MC_ProjDataStore_thorough"
-    r = lib.tlc("MC_ProjDataStore", cfg=cfg, workers=workers, timeout=1100, heap="6g", coverage=True)
+    r = lib.tlc("MC_ProjDataStore", cfg=cfg, workers=workers, timeout=1100, heap="6g", coverage=q)   # action coverage is checked in the quick tier (same actions)
     ctx.mc_must_pass(r, "layout theorems T1-T3 + coherence of every short history (%s)" % cfg, "MC_ProjDataStore")
     for act in ("SetBin", "SetSino", "SetView", "SetSegV", "SetSegS", "SetRel", "Fill", "FillFrom", "Sapyb", "FillWide"):
         if act in r.coverage and r.coverage[act][0] == 0:
